@@ -2263,7 +2263,7 @@ class Component_Decl(Base):  # R442
             i = line.find("=")
             if i != -1:
                 char_length = repmap(line[1:i].strip())
-                newline = repmap(newline[i:].lstrip())
+                newline = repmap(line[i:].lstrip())
             else:
                 char_length = repmap(newline[1:].strip())
                 newline = ""
@@ -3533,7 +3533,7 @@ class Entity_Decl(Base):  # R504
             i = line.find("=")
             if i != -1:
                 char_length = repmap(line[1:i].strip())
-                newline = repmap(newline[i:].lstrip())
+                newline = repmap(line[i:].lstrip())
             else:
                 char_length = repmap(newline[1:].strip())
                 newline = ""
